@@ -211,9 +211,13 @@ def configurator_spec(draw, min_items=3, max_items=7, max_rules=4, explicit_p=60
             return None
         return ("VARIANT%d" % counter[0]) if draw(st.integers(0, 11)) == 0 else ("R%d" % counter[0])
 
+    sub_items = set(draw(st.lists(st.sampled_from(items), max_size=2))) if draw(st.integers(0, 4)) == 0 else set()
+
     def leaf(i):
         l = {"k": "leaf", "id": i, "b": [0, 1]}
-        if draw(st.integers(0, 2)) == 0:
+        if i in sub_items:
+            l["sub"] = True         # an instance of a user-defined subclass of puan.variable (consistently for this id)
+        elif draw(st.integers(0, 2)) == 0:
             l["str"] = True
         return l
 
@@ -235,6 +239,9 @@ def configurator_spec(draw, min_items=3, max_items=7, max_rules=4, explicit_p=60
             lids = [c["id"] for c in ch if c["k"] == "leaf"]
             if r <= 6 and lids:
                 node["default"] = [draw(st.sampled_from(lids))]
+                if len(lids) >= 2 and draw(st.integers(0, 5)) == 0:
+                    # the interface is a list (only the first entry is in effect): several entries, in the given order
+                    node["default"] = list(draw(st.permutations(lids)))[:draw(st.integers(2, min(3, len(lids))))]
             elif r == 7:
                 node["default"] = [draw(st.sampled_from(items))]     # possibly not among the children
             else:
